@@ -145,8 +145,13 @@ def run_config(chk, ctx, name):
         ef = F.fns[e]
         if e == vf.path:
             continue
-        prod = [F.call_targets(ef, t) for b, t in ef.calls() if t["dest"]["local"] == 0 and not ef.blocks[b]["cleanup"]]
-        ok = len(prod) == 1 and prod[0] == [vf.path] and len(ret_defs(ef)) == 1
+        def delegates(g, depth=0):
+            """g returns exactly the result of one call - of the exported verify, or of a crate function that itself does"""
+            prod = [F.call_targets(g, t) for b, t in g.calls() if t["dest"]["local"] == 0 and not t["dest"]["proj"] and not g.blocks[b]["cleanup"]]
+            if len(prod) != 1 or len(prod[0]) != 1 or len(ret_defs(g)) != 1:
+                return False
+            return prod[0] == [vf.path] or (depth < 3 and prod[0][0] in F.fns and delegates(F.fns[prod[0][0]], depth + 1))
+        ok = delegates(ef)
         chk.ob("FUNNEL.entry-delegates", core.strip_generics(e) + tag, ok,
                "%s does not return exactly the result of %s" % (e, vf.path), where=ef.loc())
     # in the exported verify: every ok-capable return def is (an adaptor of) the HSS verify routine's result
@@ -160,6 +165,13 @@ def run_config(chk, ctx, name):
         elif t["k"] == "call":
             org = ("call", b, t)
         ok = org is not None and org[0] == "call" and F.call_targets(vf, org[2]) == [an.hss_verify.path]
+        if not ok:
+            # ... or a fresh success value built only on the Ok edge of a test of the HSS verify routine's result (`match`)
+            calls = [(cb, ct) for cb, ct in vf.calls() if F.call_targets(vf, ct) == [an.hss_verify.path] and not vf.blocks[cb]["cleanup"]]
+            if len(calls) == 1 and not calls[0][1]["dest"]["proj"]:
+                for rc in flow.result_checks(vf, calls[0][1]["dest"]["local"]):
+                    if any(flow.edge_dominates(vf, rc.block, okt, b) for okt in rc.ok_targets):
+                        ok = True
         chk.ob("FUNNEL.ok-only-from-hss-verify", "%s@%s%s" % (vf.key, d, tag), ok,
                "%s can return a value (%s) that is not the HSS verify routine's result" % (vf.path, d), where=vf.loc(b))
     # parse failures: both parser results are tested and their failure edge cannot reach the verify call
